@@ -127,8 +127,278 @@ proof! {
 	}
 }
 
+/// A `Read` over a byte array that hands out an arbitrary non-empty prefix of what is asked for
+/// on every call: fragmentation in transit becomes a symbolic variable (E8 without the socket).
+pub struct Frag<'a> {
+	pub data: &'a [u8],
+	pub pos: usize,
+	pub calls: usize,
+}
+impl<'a> std::io::Read for Frag<'a> {
+	fn read(&mut self, buf: &mut [u8]) -> std::io::Result<usize> {
+		let left = self.data.len() - self.pos;
+		let max = if buf.len() < left { buf.len() } else { left };
+		if max == 0 {
+			return Ok(0);
+		}
+		let k: usize = nd::any();
+		nd::assume(k >= 1 && k <= max);
+		let mut i = 0;
+		while i < k {
+			buf[i] = self.data[self.pos + i];
+			i += 1;
+		}
+		self.pos += k;
+		self.calls += 1;
+		Ok(k)
+	}
+}
+
+const fn parse_env(s: Option<&str>, default: u64) -> u64 {
+	match s {
+		Some(s) => {
+			let b = s.as_bytes();
+			let mut v = 0u64;
+			let mut i = 0;
+			while i < b.len() {
+				v = v * 10 + (b[i] - b'0') as u64;
+				i += 1;
+			}
+			v
+		}
+		None => default,
+	}
+}
+const UNK_LEN: usize = parse_env(option_env!("VH_UNKLEN"), 3) as usize;
+
+proof! {
+	[clock] fn message_sequence_under_fragmentation() {
+		// Ping, then a frame of an UNKNOWN type, then Pong, written by the real writer
+		// (Msg::new + write_message) into one byte stream and read back with read_message over a
+		// reader that fragments the stream arbitrarily: the identical typed messages come out,
+		// the unknown frame is skipped as a bad message without desynchronising the stream, and
+		// exactly the written bytes are consumed
+		use grin_core::pow::Difficulty;
+		use grin_p2p::msg::{Msg, Ping, Pong};
+		let ct = env::any_chain_type();
+		env::set_chain_type(ct);
+		let v = ProtocolVersion(if nd::any::<bool>() { 1 } else { 1000 });
+		let d1: u64 = nd::any();
+		let h1: u64 = nd::any();
+		let d2: u64 = nd::any();
+		let h2: u64 = nd::any();
+		let tracker = std::sync::Arc::new(grin_p2p::VerifTracker::new());
+		const N: usize = 27 + 11 + UNK_LEN + 27;
+		let mut wire = [0u8; N];
+		{
+			let m1 = Msg::new(Type::Ping, Ping { total_difficulty: Difficulty::from_num(d1), height: h1 }, v).expect("ping serialises");
+			let mut sink: &mut [u8] = &mut wire[0..27];
+			msg::write_message(&mut sink, &m1, tracker.clone()).expect("ping written");
+			check!(sink.len() == 0, "a Ping frame is 11 + 16 bytes");
+			core::mem::forget(m1);
+		}
+		// frame of a type this node does not know: right magic, small body of arbitrary bytes
+		let magic: [u8; 2] = match ct {
+			grin_core::global::ChainTypes::Testnet => [83, 59],
+			grin_core::global::ChainTypes::Mainnet => [97, 61],
+			_ => [73, 43],
+		};
+		let t: u8 = nd::any();
+		nd::assume(t > 28);
+		wire[27] = magic[0];
+		wire[28] = magic[1];
+		wire[29] = t;
+		wire[37] = UNK_LEN as u8;
+		let junk: [u8; UNK_LEN] = nd::any();
+		let mut i = 0;
+		while i < UNK_LEN {
+			wire[38 + i] = junk[i];
+			i += 1;
+		}
+		{
+			let m2 = Msg::new(Type::Pong, Pong { total_difficulty: Difficulty::from_num(d2), height: h2 }, v).expect("pong serialises");
+			let mut sink: &mut [u8] = &mut wire[38 + UNK_LEN..];
+			msg::write_message(&mut sink, &m2, tracker.clone()).expect("pong written");
+			check!(sink.len() == 0, "a Pong frame is 11 + 16 bytes");
+			core::mem::forget(m2);
+		}
+		let mut src = Frag { data: &wire[..], pos: 0, calls: 0 };
+		let r1 = msg::read_message::<Ping, _>(&mut src, v, Type::Ping);
+		match &r1 {
+			Ok(p) => check!(p.total_difficulty.to_num() == d1 && p.height == h1, "the Ping read is the Ping written"),
+			Err(_) => check!(false, "a written Ping is readable however the stream is fragmented"),
+		}
+		check!(src.pos == 27, "exactly the Ping frame consumed");
+		let r2 = msg::read_message::<Pong, _>(&mut src, v, Type::Pong);
+		check!(matches!(r2, Err(P2pError::BadMessage)), "a frame of unknown type is reported as a bad message");
+		check!(src.pos == 38 + UNK_LEN, "and its announced body is skipped: the stream stays in step");
+		let r3 = msg::read_message::<Pong, _>(&mut src, v, Type::Pong);
+		match &r3 {
+			Ok(p) => check!(p.total_difficulty.to_num() == d2 && p.height == h2, "the Pong after the unknown frame is the Pong written"),
+			Err(_) => check!(false, "the message after a skipped frame is readable"),
+		}
+		check!(src.pos == N, "the whole stream is consumed, nothing more");
+		cover!(src.calls > 6, "some read was fragmented");
+		core::mem::forget(r1);
+		core::mem::forget(r2);
+		core::mem::forget(r3);
+		core::mem::forget(tracker);
+	}
+}
+
+proof! {
+	fn read_message_type_mismatch_keeps_stream() {
+		// read_message::<T> on a well-formed frame of ANOTHER known type with an empty body:
+		// refused as a bad message after consuming exactly the frame header (nothing of the
+		// next frame), and a wrong-magic header is refused too
+		let ct = env::any_chain_type();
+		env::set_chain_type(ct);
+		let mut b: [u8; 22] = nd::any();
+		// the announced length is zero (a symbolic length makes the body buffer a symbolic-size
+		// object: such queries do not finish); magic, type and the following bytes are arbitrary
+		let mut i = 3;
+		while i < 11 {
+			b[i] = 0;
+			i += 1;
+		}
+		let mut src = Frag { data: &b[..], pos: 0, calls: 0 };
+		let r = msg::read_message::<msg::Ping, _>(&mut src, ProtocolVersion(1), Type::Ping);
+		let magic: [u8; 2] = match ct {
+			grin_core::global::ChainTypes::Testnet => [83, 59],
+			grin_core::global::ChainTypes::Mainnet => [97, 61],
+			_ => [73, 43],
+		};
+		let len = u64::from_be_bytes([b[3], b[4], b[5], b[6], b[7], b[8], b[9], b[10]]);
+		if b[0] != magic[0] || b[1] != magic[1] {
+			check!(r.is_err() && src.pos == 11, "wrong magic: refused after the 11 header bytes");
+		} else if b[2] != 3 && b[2] <= 28 && r.is_err() && len == 0 {
+			check!(matches!(r, Err(P2pError::BadMessage)) && src.pos == 11, "another known type: bad message, only the header consumed");
+			cover!(true, "frame of another known type");
+		} else if b[2] == 3 && len == 0 {
+			check!(r.is_err() && src.pos == 11, "a Ping frame announcing an empty body is refused without reading on");
+			cover!(true, "ping with empty body");
+		} else if b[2] > 28 {
+			check!(matches!(r, Err(P2pError::BadMessage)) && src.pos == 11, "an unknown type with an empty body: bad message, only the header consumed");
+			cover!(true, "unknown type");
+		}
+		core::mem::forget(r);
+	}
+}
+
+/// E8: the socket behind the codec. `TcpStream::read` hands out an arbitrary non-empty prefix of
+/// what is asked for from a harness byte array; timeouts are no-ops (outside the claim).
+pub mod sock {
+	use crate::nd;
+	pub static mut DATA: [u8; 72] = [0u8; 72];
+	pub static mut LEN: usize = 0;
+	pub static mut POS: usize = 0;
+	pub static mut CALLS: usize = 0;
+	pub fn read(_s: &mut std::net::TcpStream, buf: &mut [u8]) -> std::io::Result<usize> {
+		unsafe {
+			let left = LEN - POS;
+			let max = if buf.len() < left { buf.len() } else { left };
+			if max == 0 {
+				return Ok(0);
+			}
+			let k: usize = nd::any();
+			nd::assume(k >= 1 && k <= max);
+			let mut i = 0;
+			while i < k {
+				buf[i] = DATA[POS + i];
+				i += 1;
+			}
+			POS += k;
+			CALLS += 1;
+			Ok(k)
+		}
+	}
+	pub fn set_read_timeout(_s: &std::net::TcpStream, _d: Option<std::time::Duration>) -> std::io::Result<()> {
+		Ok(())
+	}
+}
+
+proof! {
+	[clock]
+	#[cfg_attr(kani, kani::stub(<std::net::TcpStream as std::io::Read>::read, sock::read))]
+	#[cfg_attr(kani, kani::stub(std::net::TcpStream::set_read_timeout, sock::set_read_timeout))]
+	fn codec_ping_then_unknown_then_pong() {
+		// the streaming Codec (the reader of every established connection): a Ping frame, a frame
+		// of an unknown type and a Pong frame arriving in arbitrary fragments are decoded as
+		// Ping, Unknown(type), Pong with the written field values, consuming exactly the stream
+		#[cfg(kani)]
+		{
+			use grin_p2p::msg::Message;
+			use std::os::unix::io::FromRawFd;
+			env::set_chain_type(grin_core::global::ChainTypes::Mainnet);
+			let d1: u64 = nd::any();
+			let h1: u64 = nd::any();
+			let d2: u64 = nd::any();
+			let h2: u64 = nd::any();
+			let t: u8 = nd::any();
+			nd::assume(t > 28);
+			let junk: [u8; 2] = nd::any();
+			unsafe {
+				let w = &mut sock::DATA;
+				let frame = |w: &mut [u8; 72], at: usize, ty: u8, len: u8| {
+					w[at] = 97;
+					w[at + 1] = 61;
+					w[at + 2] = ty;
+					w[at + 10] = len;
+				};
+				frame(w, 0, 3, 16);
+				let b = d1.to_be_bytes();
+				let c = h1.to_be_bytes();
+				let mut i = 0;
+				while i < 8 {
+					w[11 + i] = b[i];
+					w[19 + i] = c[i];
+					i += 1;
+				}
+				frame(w, 27, t, 2);
+				w[38] = junk[0];
+				w[39] = junk[1];
+				frame(w, 40, 4, 16);
+				let b = d2.to_be_bytes();
+				let c = h2.to_be_bytes();
+				i = 0;
+				while i < 8 {
+					w[51 + i] = b[i];
+					w[59 + i] = c[i];
+					i += 1;
+				}
+				sock::LEN = 67;
+			}
+			let stream = unsafe { std::net::TcpStream::from_raw_fd(3) };
+			let mut codec = grin_p2p::VerifCodec::new(ProtocolVersion(1), stream);
+			let (m1, n1) = codec.read();
+			match &m1 {
+				Ok(Message::Ping(p)) => check!(p.total_difficulty.to_num() == d1 && p.height == h1, "codec: the Ping read is the Ping written"),
+				_ => check!(false, "codec: a Ping frame is decoded as a Ping however it is fragmented"),
+			}
+			check!(n1 == 27, "codec reports the bytes of the frame");
+			let (m2, n2) = codec.read();
+			check!(matches!(m2, Ok(Message::Unknown(x)) if x == t), "codec: an unknown type is reported and its body skipped");
+			check!(n2 == 13 && unsafe { sock::POS } == 40, "codec: exactly the unknown frame is consumed: the stream stays in step");
+			let (m3, n3) = codec.read();
+			match &m3 {
+				Ok(Message::Pong(p)) => check!(p.total_difficulty.to_num() == d2 && p.height == h2, "codec: the Pong after the unknown frame is the Pong written"),
+				_ => check!(false, "codec: the message after a skipped frame is decoded"),
+			}
+			check!(n3 == 27 && unsafe { sock::POS } == 67, "codec: the whole stream is consumed, nothing more");
+			cover!(unsafe { sock::CALLS } > 6, "some read was fragmented");
+			core::mem::forget(m1);
+			core::mem::forget(m2);
+			core::mem::forget(m3);
+			core::mem::forget(codec);
+		}
+	}
+}
+
 pub const HARNESSES: &[(&str, fn())] = &[
 	("c19::frame_header_writer_matches_reader", frame_header_writer_matches_reader),
 	("c19::frame_header_limits", frame_header_limits),
+	("c19::codec_ping_then_unknown_then_pong", codec_ping_then_unknown_then_pong),
+	("c19::message_sequence_under_fragmentation", message_sequence_under_fragmentation),
+	("c19::read_message_type_mismatch_keeps_stream", read_message_type_mismatch_keeps_stream),
 	("c19::read_message_wrong_type_refused", read_message_wrong_type_refused),
 ];
